@@ -56,6 +56,17 @@ CacheOK(Q, cp, cq) ==
           /\ IF v % 2 = 0 THEN Q[v \div 2 + 1] = pt
              ELSE OnSeg(Q[(v - 1) \div 2 + 1], Q[(v + 1) \div 2 + 1], pt) /\ ~IsVertex(Q, pt)
 PostOK(inst, Q, cq) == Q = Expected(inst.ps) /\ CacheOK(Q, inst.cps, cq)
+\* Polygon::checkpointsOnSegment(s, m) on route Q with cache cq (s 0-based): the checkpoints lying on the closed segment from vertex s to
+\* vertex s+1, in cache order, without those at the start vertex when m > 0 and without those at the end vertex when m < 0.
+\* Stated on the *points* (geometry), not on the cache values the code compares.
+OnSegmentExpected(Q, cq, s, m) ==
+    LET a == Q[s + 1]  b == Q[s + 2]
+        pts == [i \in DOMAIN cq |-> <<cq[i][2], cq[i][3]>>]
+    IN  SelectSeq(pts, LAMBDA pt : OnSeg(a, b, pt) /\ (m > 0 => pt # a) /\ (m < 0 => pt # b))
+\* cos = what the real function returned: <<s, m, points>> for every segment and m in -1..1
+OnSegmentOK(Q, cq, cos) ==
+    /\ {<<c[1], c[2]>> : c \in {cos[i] : i \in DOMAIN cos}} = (0..(Len(Q) - 2)) \X (-1..1)
+    /\ \A i \in DOMAIN cos : cos[i][3] = OnSegmentExpected(Q, cq, cos[i][1], cos[i][2])
 
 \* ---- design level: the loop ------------------------------------------------
 VARIABLES inst, ps, cps, j, pc, k, bad
@@ -92,6 +103,8 @@ REval == /\ pc = "todo" /\ pc' = "judged" /\ UNCHANGED <<inst, ps, cps, j, k>>
          /\ bad' = {<<i, 1>> : i \in {i \in Idx(k) : Recs[i].qs # Expected(Recs[i].ps)}}          \* 1: wrong route
                     \cup {<<i, 2>> : i \in {i \in Idx(k) : Recs[i].qs = Expected(Recs[i].ps)           \* 2: right route, cache mis-indexed
                                                           /\ ~CacheOK(Recs[i].qs, Recs[i].cps, Recs[i].cq)}}
+                    \cup {<<i, 3>> : i \in {i \in Idx(k) : Recs[i].qs = Expected(Recs[i].ps) /\ CacheOK(Recs[i].qs, Recs[i].cps, Recs[i].cq)
+                                                          /\ ~OnSegmentOK(Recs[i].qs, Recs[i].cq, Recs[i].cos)}}   \* 3: checkpointsOnSegment wrong
          /\ PrintT(<<"STAT", "simp", k, Cardinality({i \in Idx(k) : Len(Recs[i].qs) < Len(Recs[i].ps) /\ Len(Recs[i].cps) > 0})>>)
 RSpec == RInit /\ [][REval]_vars
 AllOK == bad = {}
